@@ -386,6 +386,11 @@ func c01KeyKindMaps() []any {
 	add(map[named16]int{1: 1, 65535: 2})
 	add(map[namedS]int{"a": 1, "<&>": 2, "": 3})
 	add(map[string]map[uint16]map[int8]bool{"x": {9: {-9: true}}})
+	// pointers to value-receiver TextMarshalers as keys, the nil pointer among them (its name is "")
+	kt, ki := zoo.TVS("k"), zoo.TVI(7)
+	add(map[*zoo.TVS]int{nil: 1, &kt: 2})
+	add(map[*zoo.TVS]string{nil: "only-nil"})
+	add(map[*zoo.TVI]bool{nil: true, &ki: false})
 	return out
 }
 
